@@ -59,7 +59,7 @@ def run_case(rng, res, idx, replaying=False):
             # instead accept that the hook has already folded this iteration's batch: factors below are re-read after the step.
         D = s.grads()
         lam = s.p.damping
-        s.p.step()
+        kh.step(s.p, cfg)
         R = s.grads()
         fac = s.factors()
         V = {}
